@@ -104,7 +104,7 @@ def layouts(tier="quick"):
             prefix=lambda ln: format(ln, "08b"), uses_len=True)
         add("LEN,BLOB(8LEN),m1750", [("LEN", U(8)), ("BLOB", PType("BL0_T", "Binary", BinEnc(Dyn("LEN", False, 8, 0)))), ("M", PType("M17_T", "Float", FloatEnc(32, "MILSTD_1750A")))],
             prefix=lambda ln: format(ln, "08b"), uses_len=True)
-        add("u12,s20,f16", [("A", U(12)), ("B", PType("S20_T", "Integer", IntEnc(20, "twosComplement"))), ("C", PType("F16_T", "Float", FloatEnc(16)))])
+        add("u12,s20,f16", [("A", U(12)), ("B", PType("I20_T", "Integer", IntEnc(20, "twosComplement"))), ("C", PType("F16_T", "Float", FloatEnc(16)))])
     return out
 
 
